@@ -443,22 +443,27 @@ func (p *Parser) parseBuffer(buf []byte, last bool) error {
 				p.mode = dotMap
 				continue
 			}
-			for i, b = range buf[off+1:] {
-				if digitMap[b] != numDigit {
-					break
+			p.mode = dotMap
+			if off+1 < len(buf) {
+				for i, b = range buf[off+1:] {
+					if digitMap[b] != numDigit {
+						break
+					}
+					p.num.Frac = p.num.Frac*10 + uint64(b-'0')
+					p.num.Div *= 10.0
+					if gen.BigLimit <= p.num.Div {
+						p.num.FillBig()
+						break
+					}
 				}
-				p.num.Frac = p.num.Frac*10 + uint64(b-'0')
-				p.num.Div *= 10.0
-				if gen.BigLimit <= p.num.Div {
-					p.num.FillBig()
-					break
+				off += i
+				if digitMap[b] == numDigit {
+					off++
+					p.mode = fracMap
+				} else if 0 < i {
+					p.mode = fracMap
 				}
 			}
-			off += i
-			if digitMap[b] == numDigit {
-				off++
-			}
-			p.mode = fracMap
 		case numFrac:
 			p.num.AddFrac(b)
 			p.mode = fracMap
